@@ -1,10 +1,14 @@
 /- Side conditions re-proved on every run for the table regenerated from /repo. -/
 import LiquerModel.Gen.EscapeTable
+import LiquerProofs.Lemmas.TokenDefs
 
 namespace Liquer.Inst
 
 /-- The regenerated `ESCAPE_SEQUENCES` satisfies the decidable side condition of the C03 theorems. -/
 theorem escapeTable_ok : tableOK Gen.escapeTable = true := by decide
+
+/-- `/`, `-` and the space are patterns of the regenerated table and no code contains them. -/
+theorem escapeTable_sepCovered : sepCovered Gen.escapeTable = true := by decide
 
 /-- The probed safe set of `urllib.parse.quote` is exactly the model's `quoteSafe` on ASCII. -/
 theorem quoteSafe_probe : ∀ n : Fin 128, quoteSafe (Char.ofNat n.val) = Gen.quoteSafeProbe.contains (Char.ofNat n.val) := by
